@@ -36,6 +36,12 @@ type ForeignItem struct {
 	Seed    int64             `json:"seed"`
 	// Spellings to try for every member: subset of abs, rel, dot
 	Spellings []string `json:"spellings"`
+	// Pad: zero blocks after the end-of-archive marker, as writers that pad to a blocking factor leave them
+	// (GNU tar: to a multiple of 20 blocks); -1 = pad to a multiple of 20 blocks
+	Pad int `json:"pad,omitempty"`
+	// RemoveFirst: the first call after opening removes an original regular member (so that the first
+	// record appended behind the foreign archive is an STFS action record rather than a plain create)
+	RemoveFirst bool `json:"removefirst,omitempty"`
 }
 
 type ForeignResult struct {
@@ -100,7 +106,7 @@ func runForeign(it *ForeignItem, ks *sut.KeySet, workRoot string) (res ForeignRe
 		return
 	}
 	defer os.RemoveAll(dir)
-	desc := fmt.Sprintf("format=%s shape=%q rs=%d members=%d", it.Format, it.Shape, it.RS, len(it.Members))
+	desc := fmt.Sprintf("format=%s shape=%q rs=%d members=%d pad=%d", it.Format, it.Shape, it.RS, len(it.Members), it.Pad)
 	add := func(kind string, f string, a ...interface{}) {
 		res.Findings = append(res.Findings, Finding{Prop: "C17", Call: kind, Msg: fmt.Sprintf(f, a...) + " [" + desc + "]"})
 	}
@@ -154,6 +160,11 @@ func runForeign(it *ForeignItem, ks *sut.KeySet, workRoot string) (res ForeignRe
 	if err := tw.Close(); err != nil {
 		res.Infra = err.Error()
 		return
+	}
+	if it.Pad > 0 {
+		buf.Write(make([]byte, 512*it.Pad))
+	} else if it.Pad < 0 && buf.Len()%(20*512) != 0 {
+		buf.Write(make([]byte, 20*512-buf.Len()%(20*512)))
 	}
 	drive := filepath.Join(dir, "drive.tar")
 	if err := os.WriteFile(drive, buf.Bytes(), 0o644); err != nil {
@@ -268,6 +279,30 @@ func runForeign(it *ForeignItem, ks *sut.KeySet, workRoot string) (res ForeignRe
 	}
 	if len(res.Findings) > 0 {
 		return
+	}
+	if it.RemoveFirst {
+		var victim string
+		for p, k := range kinds {
+			if k == "file" && (victim == "" || p > victim) {
+				victim = p
+			}
+		}
+		if victim != "" {
+			var rerr error
+			ok, pan = sut.Watchdog(callTimeout, func() { rerr = fsys.Remove(victim) })
+			res.Checks++
+			if !ok || pan != nil {
+				add("coexist", "removing an original member did not return / panicked: %v", pan)
+				res.Hang = !ok
+				return
+			}
+			if rerr != nil {
+				add("coexist", "removing the original member %s right after opening failed: %v", victim, rerr)
+				return
+			}
+			delete(kinds, victim)
+			delete(want, victim)
+		}
 	}
 	// 5. files added through the filesystem coexist and survive a rebuild
 	added := Chunk{Size: 900, Dist: "text", Seed: it.Seed + 5}.Bytes()
